@@ -58,6 +58,8 @@ class C11(Check):
             {"ops": [(False, 4, bytes(700), 1, 0, (1000, 0x10)), (True, 11, bytes(761), 1, 0, (0x10000,))], "index": 9, "ethertype": 0x3456},
             {"ops": [(i % 2 == 0, 5 if i % 2 == 0 else 4, b"", i, i, (-i, 0x130)) for i in range(17)], "index": 1000, "ethertype": 0x88A4},
             {"ops": [(False, 1, b"\0\0", 0, 0, (0, 0x10))], "index": 2000, "ethertype": 0x88A4},
+            {"ops": [(False, 4, b"\1\2", 1, 3, (1001, 0x130)), (True, 5, b"\7", 1, 4, (1002, 0x120)), (False, 4, b"\1\2", 1, 3, (1001, 0x130))],
+             "index": 7, "ethertype": 0x88A4},
         ]
 
     def rand_op(self, rng, remaining):
@@ -89,6 +91,12 @@ class C11(Check):
                 ops.append(op)
                 if size + len(op[2]) + 12 <= 1500 and len([o for o in ops[:-1]]) <= 15:
                     size += len(op[2]) + 12
+            if len(ops) >= 2 and rng.random() < 0.3:
+                # identical datagrams in one frame (two tasks issuing the same request): as the last one, in the middle, twice
+                k = rng.randrange(len(ops) - 1)
+                ops[-1] = ops[k]
+                if rng.random() < 0.3:
+                    ops[rng.randrange(len(ops))] = ops[k]
             out.append({"ops": ops, "index": rng.choice([0, 1000, rng.randrange(2000, 10 ** 9), 2 ** 31 - 1]),
                         "ethertype": rng.choice([0x88A4, rng.randrange(0x3000, 0x6000)])})
         # malformed stream: field values struct cannot pack
